@@ -18,7 +18,7 @@ func ext4Configs() []Ext4Cfg {
 		{Size: 32 << 20, SPB: 4, Off: nr},                            // 2 KiB blocks
 		{Size: 16 << 20, Off: []string{"journal"}},                   // no journal
 		{Size: 32 << 20, SPB: 8, Off: []string{"resize_inode", "metadata_csum"}},
-		{Size: 8 << 20},                                              // single group
+		{Size: 8 << 20, Off: nr},                                     // single group (refused with the resize inode on)
 		{Size: 64 << 20, SPB: 8, Start: 4096, Off: []string{"resize_inode", "journal"}},
 	}
 }
@@ -39,7 +39,7 @@ func c04Cases(seed int64, tier string) []core.Case {
 		}
 		cs = append(cs, core.MkCase(fmt.Sprintf("random-%d", i), "history", r.Int63(), ec))
 	}
-	for i, cfg := range []Ext4Cfg{{Size: 8 << 20}, {Size: 16 << 20, SPB: 8, Start: 1 << 20}} {
+	for i, cfg := range []Ext4Cfg{{Size: 16 << 20}, {Size: 16 << 20, SPB: 8, Start: 1 << 20}} {
 		cs = append(cs, core.MkCase(fmt.Sprintf("fill-%d", i), "fill", seed+int64(i), ext4Case{Cfg: cfg, Mode: "fill"}))
 	}
 	cs = append(cs, core.MkCase("dirgrow-0", "dirgrow", seed, ext4Case{Cfg: Ext4Cfg{Size: 16 << 20}, Mode: "dirgrow", Steps: 60}))
